@@ -4,7 +4,7 @@ import hashlib, hmac as pyhmac
 ID = "C08"
 FAMILY = "sha"
 RULE = ("mode 1: message lengths concentrated on the padding boundaries (0,1,55,56,57,63,64,65,119,120,127,128,...) "
-        "fed in a random split of update calls (empty updates included; all split points for short messages in "
+        "fed in a random split of update calls; mode 4: three messages of 2^29-1, 2^29 and 2^29+5 bytes (bit length across 2^32), a pattern generated on both sides and compared with hashlib only -- the list-based model cannot evaluate them;  (empty updates included; all split points for short messages in "
         "thorough); mode 2: HMAC with keys of 0,1,32,63,64,65,131 bytes, half of them followed at once by the same data under a key one bit away and under the first key again; mode 3: verify with the correct tag, 31/33 "
         "bytes, every single-bit flip, several tag bytes changed so that the differences cancel under + / xor. Oracle: python hashlib/hmac (independent third implementation). "
         "non-trivial = every case; distinct = distinct implementation outputs")
@@ -35,6 +35,9 @@ def split(rng, msg):
 def generate(rng, tier):
     n = {"quick": 150, "search": 250, "thorough": 2500}[tier]
     cases = []
+    # messages whose bit length reaches 2^32 (2^29 bytes): a pattern generated on both sides, fed in 1 MiB pieces
+    for total in ([2 ** 29 - 1, 2 ** 29, 2 ** 29 + 5] if tier != "search" else [2 ** 29]):
+        cases.append({"ints": [4, total, 1 << 20, rng.randrange(256)], "tag": "long-message"})
     for L in LENS:
         msg = [rng.randrange(256) for _ in range(L)]
         cases.append({"ints": [1, 1] + lp(msg), "tag": "oneshot"})
@@ -99,10 +102,27 @@ def _parse_lp(ints, pos):
     return ints[pos + 1:pos + 1 + n], pos + 1 + n
 
 
+def long_digest(total, seed):
+    base = bytes((131 * i + seed) & 255 for i in range(256))
+    h = hashlib.sha256()
+    block = base * 4096
+    full, rest = divmod(total, len(block))
+    for _ in range(full):
+        h.update(block)
+    h.update((base * (rest // 256 + 1))[:rest])
+    return list(h.digest())
+
+
 def judge(case, impl, model):
     ints = case["ints"]
     if impl and impl[0] in (-2000, -1000):
         return {"fail": f"C08|abnormal|{impl[:2]}"}
+    if ints[0] == 4:
+        # too long for the list-based model to evaluate: this length is tied to the standard by the oracle alone (the theorem
+        # c08_sha_streaming covers every length below 2^61 in the model)
+        if impl != long_digest(ints[1], ints[3]):
+            return {"fail": f"C08|sha-mismatch|long-message|bits>=2^32={ints[1] >= 2 ** 29}", "corr": True, "nontrivial": True}
+        return {"corr": True, "nontrivial": True}
     if ints[0] == 1:
         pos, msg = 2, []
         for _ in range(ints[1]):
